@@ -165,12 +165,18 @@ class World:
         mine = kind in ("mine", "mine_upd")
         file_row = kind != "dl_nofile"
         infos, blobs = [], []
+        lazy = set()
         for i, b in enumerate(spec["blobs"]):
             h = _h("s%d-b%d" % (n, i))
             added_on = BASE_TIME - b["age"]
             infos.append(BlobInfo(i, b["len"], "%032x" % (n * 100 + i), added_on, h, created_mine))
-            blobs.append(B(h, b["len"], added_on, b["state"] == "finished", mine, "content", n, file_row,
+            blobs.append(B(h, b["len"], added_on, b["state"] != "pending", mine, "content", n, file_row,
                            bool(b.get("cached"))))
+            if b["state"] == "pending_with_file" and not live:
+                # the file is complete but its row is still 'pending' (death between file write and database write):
+                # the manager's setup() finds the file and records it as finished
+                lazy.add(h)
+                self.out.label("has:pending-row-with-file")
         infos.append(BlobInfo(len(infos), 0, "%032x" % (n * 100 + 99), BASE_TIME, None, created_mine))
         name = "stream%d.bin" % n
         sd = spec["sd"]
@@ -189,8 +195,9 @@ class World:
                 blob = self.bm.get_blob(b.hash, b.len, created_mine)
                 blob.added_on = b.added_on
                 await self.bm.blob_completed(blob)
-        elif fin:
-            await self.storage.add_blobs(*((b.hash, b.len, b.added_on, created_mine) for b in fin), finished=True)
+        elif [b for b in fin if b.hash not in lazy]:
+            await self.storage.add_blobs(*((b.hash, b.len, b.added_on, created_mine) for b in fin if b.hash not in lazy),
+                                         finished=True)
         if file_row:
             saved = bool(spec.get("saved", True))
             args = (descriptor.stream_hash, name if saved else None, self.dl_dir if saved else None, 0)
@@ -392,7 +399,7 @@ def run_case(case):
 LENS = st.one_of(st.sampled_from([1, MIB - 1, MIB, MIB + 1, 2 * MIB, 2 * MIB, MIB, 2 * MIB - 1]),
                  st.integers(1, 2 * MIB))
 AGES = st.one_of(st.sampled_from([0, 1, 2, 3600, 86400, 10 ** 6]), st.integers(0, 10 ** 6))
-STATE = st.sampled_from(["finished"] * 7 + ["pending"])
+STATE = st.sampled_from(["finished"] * 7 + ["pending", "pending_with_file"])
 CACHED = st.sampled_from([False, False, True])
 
 
